@@ -515,8 +515,17 @@ class Fetcher:
                         # cancellation
                         if not task.done():
                             task.cancel()
-                        with contextlib.suppress(asyncio.CancelledError):
-                            await task
+                    if self._pending_tasks:
+                        # NOTE: `gather` hands the tasks' own cancellation back
+                        # as results, while a cancellation of this routine
+                        # (close()) still gets through to us. Suppressing
+                        # CancelledError around `await task` swallowed both.
+                        results = await asyncio.gather(
+                            *self._pending_tasks, return_exceptions=True
+                        )
+                        for res in results:
+                            if isinstance(res, Exception):
+                                raise res
                     self._pending_tasks.clear()
                     self._records.clear()
 
